@@ -13,6 +13,7 @@ import (
 	fzf "github.com/junegunn/fzf/src"
 	"github.com/junegunn/fzf/src/util"
 
+	"verif/harness/fzfrun"
 	"verif/harness/vk"
 )
 
@@ -22,11 +23,17 @@ func init() {
 
 func MainC13(prop, tier string) int {
 	r := vk.New("C13", tier)
-	r.Rule = "real ChunkList + Matcher.Loop + Merger + caches, harness as loader and coordinator, whole run under the Go race detector: (1) stress: items with index-derived unique content are pushed while snapshots (with/without --tail) are taken and Reset(retry|cancel) requests with cache-extending queries are issued at random moments; every published merger (all of them: a publish handshake at the matcher.publish point) must equal the single-threaded filter+sort of the snapshot of some issued request with that query, read under four access patterns; every item of every snapshot is re-validated at the end; (2) cancellation enumeration: a cancelling request is injected exactly after the k-th chunk count (k=1..numChunks-1) for 1..40 chunks x 1..8 partitions: the superseded request publishes nothing, the superseding one publishes the complete result, nothing twice; (3) linearizability (porcupine) of Push/Snapshot/Clear histories and of EventBox Set/Peek/Wait histories from 2-6 goroutines; (4) race reports in fzf code are violations. distinct = (phase, partitions, chunks, cancel index | history shape) signatures"
+	r.Rule = "real ChunkList + Matcher.Loop + Merger + caches, harness as loader and coordinator, whole run under the Go race detector: (1) stress: items with index-derived unique content are pushed while snapshots (with/without --tail) are taken and Reset(retry|cancel) requests with cache-extending queries are issued at random moments; every published merger (all of them: a publish handshake at the matcher.publish point) must equal the single-threaded filter+sort of the snapshot of some issued request with that query, read under four access patterns; every item of every snapshot is re-validated at the end; (2) cancellation enumeration: a cancelling request is injected exactly after the k-th chunk count (k=1..numChunks-1) for 1..40 chunks x 1..8 partitions: the superseded request publishes nothing, the superseding one publishes the complete result, nothing twice; (3) linearizability (porcupine) of Push/Snapshot/Clear histories and of EventBox Set/Peek/Wait histories from 2-6 goroutines; (4) race reports in fzf code are violations; (5) the whole program built with -race in a private tmux server: a slow producer feeds the real Reader while queries are typed, the sort order toggled, items excluded and the input reloaded (failpoints widening scans and publishes): race reports with a stack in the loader / matcher / cache / event-box / item code are violations, reports elsewhere in fzf (terminal, previewer) are outside this property and quoted in the evidence. distinct = (phase, partitions, chunks, cancel index | history shape) signatures"
 	r.Assumptions = []string{"queries contain a positive term, so results are sorted and every chunk contributes matches", "a published merger is attributed to the most recent issued request with the same query and an equal reference result", "race detector: only executed pairs of accesses are seen"}
 	logBase := filepath.Join(vk.Scratch(), "race")
 	os.Setenv("GORACE", "halt_on_error=0 log_path="+logBase)
 	r.Fanout("c13", vk.NumWorkers(), 40*time.Minute)
+	if _, err := fzfrun.BinRace(); err != nil {
+		r.Inconclusive("race build of fzf: " + err.Error())
+	} else {
+		r.Fanout("c13live", vk.NumWorkers(), 40*time.Minute)
+		r.Floor("race_sessions", 8)
+	}
 	// race reports written by the workers
 	logs, _ := filepath.Glob(logBase + ".*")
 	reports := 0
